@@ -651,7 +651,8 @@ func (w *World) Run(idx int, it Item) (obs Obs) {
 			}
 			obs.FOps, obs.CutK, obs.CutTorn = ops[:k], k, torn
 			w.Or.cutStop = true
-			if torn >= 0 || (k > 0 && k < len(ops) && ops[k-1].Op == "create") {
+			// (the older form of a cut keeps its class: the witness of the repaired finding torn-cache-file is of that form)
+			if it.FOps > 0 && (torn >= 0 || (k > 0 && k < len(ops) && ops[k-1].Op == "create")) {
 				w.Or.tornWrite = true
 			}
 		}
